@@ -696,11 +696,17 @@ class XCodeBackend(backends.Backend):
             build_phases = []
             dependencies = [self.regen_dependency_id]
             generator_id = 0
-            for d in t.dependencies:
+            # Everything the command, depends: and the inputs need built first
+            for d in t.get_target_dependencies():
+                if isinstance(d, build.CustomTargetIndex):
+                    d = d.target
+                dep_id = None
                 if isinstance(d, build.CustomTarget):
-                    dependencies.append(self.pbx_custom_dep_map[d.get_id()])
+                    dep_id = self.pbx_custom_dep_map[d.get_id()]
                 elif isinstance(d, build.BuildTarget):
-                    dependencies.append(self.pbx_dep_map[d.get_id()])
+                    dep_id = self.pbx_dep_map[d.get_id()]
+                if dep_id is not None and dep_id not in dependencies:
+                    dependencies.append(dep_id)
             for s in t.sources:
                 if isinstance(s, build.GeneratedList):
                     build_phases.append(self.shell_targets[(tname, generator_id)])
